@@ -481,6 +481,42 @@ def run_operators(tier, seed):
                                           {"cell": cell, "why": f"rel_error {mpmath.nstr(err, 5)}", "expr": str(sres)[:300]})
                             break
                         res.cell(cell)
+    # ---- isclose: the symbolic backend compares structurally (a documented limitation: no tolerance), so only the two
+    # clear-cut cases are judged -- a vector is close to an identical one for every tolerance (including 0, 0), and is not
+    # close to a clearly different one -- against the object backend on the same numbers
+    import vector
+    for dim in (2, 3, 4):
+        for s_self in R.SYSTEMS[dim]:
+            mom = r.random() < 0.5
+            a_rv = gen.vec4(r, core=True, causal="timelike", forward=True)[0] if dim == 4 else gen.vec(r, dim, core=True)[0]
+            try:
+                al = LVec(a_rv, s_self, mom)
+                far = LVec(R.op_scale(a_rv, mpf("1.75")), s_self, mom)
+                al.exact_coords(), far.exact_coords()
+            except R.NotRepresentable:
+                continue
+            ncls = getattr(vector, ("MomentumSympy" if mom else "VectorSympy") + f"{dim}D")
+            mkn = lambda l: ncls(**dict(zip(R.field_names(s_self), [to_rational(c) for c in l.exact_coords()])))  # noqa: E731
+            sv, _ss = sym_vector(s_self, mom, "a")
+            for tname, kw in (("default", {}), ("rtol=0,atol=0", {"rtol": 0, "atol": 0}), ("rtol=1e-9", {"rtol": 1e-9, "atol": 0})):
+                for cname, x, y, want in (("identical numbers", mkn(al), mkn(al), True), ("clearly different numbers", mkn(al), mkn(far), False),
+                                          ("the same symbols", sv, sv, True)):
+                    res.evaluations += 1
+                    cell = f"op:isclose|{dim}|{R.sysname(s_self)}|{cname}|{tname}"
+                    try:
+                        got = x.isclose(y, **kw)
+                        gotb = bool(got)
+                    except Exception as e:
+                        res.violation("C08/symbolic-call-raises op=isclose", {"cell": cell, "exc": f"{type(e).__name__}: {e}"[:200]})
+                        continue
+                    if cname != "the same symbols":
+                        ob = bool(E.mat_obj(al).isclose(E.mat_obj(al if want else far), **kw))
+                        if ob != want:
+                            continue  # (not a clear-cut case for the numeric backend either)
+                    if gotb != want:
+                        res.violation("C08/expression-disagrees-with-numeric-backend op=isclose",
+                                      {"cell": cell, "symbolic": repr(got)[:120], "numeric": want})
+                    res.cell(cell)
     res.sample({"part": "operators", "forms": list(forms) + list(scal)})
     return res
 
